@@ -680,6 +680,33 @@ func rejectedConstructFamilies() []OutsideAtom {
 	add("range_modifies_slice_var", "var t []uint64\n\tt = append(t, 1)\n\tt = append(t, 2)\n\tfor _, v := range t {\n\t\tif v == 1 {\n\t\t\tt = append(t, 9)\n\t\t}\n\t\tx += v\n\t}\n\tx += uint64(len(t))", false)
 	add("range_value_is_copy", "hs := make([]H, 2)\n\tfor _, hv := range hs {\n\t\thv.f = 9\n\t\tx += hv.f\n\t}\n\tx += hs[0].f", false)
 	add("range_pointer_elems", "ps := make([]*H, 2)\n\tps[0] = p\n\tps[1] = &H{f: 2}\n\tfor _, hp := range ps {\n\t\thp.f = hp.f + 1\n\t}\n\tx += ps[1].f", false)
+	// --- define form versus assignment form of every binding construct; := that re-uses a variable
+	add("define_reuses_var_first", "var a1 uint64 = 1\n\ta1, b1 := two(x)\n\ta1 = a1 + 1\n\tx += a1*10 + b1", false)
+	add("define_reuses_var_second", "var b1 uint64 = 1\n\ta1, b1 := two(x)\n\tb1 = b1 + 1\n\tx += a1*10 + b1", false)
+	add("define_reuses_var_read_only", "var a1 uint64 = 1\n\ta1, b1 := two(x)\n\tx += a1*10 + b1", false)
+	add("define_reuses_in_inner_scope_is_new", "var a1 uint64 = 1\n\tif x > 0 {\n\t\ta1, b1 := two(x)\n\t\tx += a1 + b1\n\t}\n\tx += a1", false)
+	add("define_reuses_commaok", "var v9 uint64 = 5\n\tv9, ok9 := m[1]\n\tif ok9 {\n\t\tx += v9\n\t}", false)
+	add("define_reuses_param", "a, b1 := two(x)\n\tx += a + b1", false)
+	add("define_reuses_letbound_captured_by_closure", "ok9 := x > 1000000\n\tseen := func() bool {\n\t\treturn ok9\n\t}\n\tv9, ok9 := m[1]\n\tif seen() {\n\t\tx += 1000\n\t}\n\tif ok9 {\n\t\tx += v9\n\t}", false)
+	add("define_reuses_letbound_plain", "ok9 := x > 1000000\n\tv9, ok9 := m[1]\n\tif ok9 {\n\t\tx += v9 + 1\n\t}", false)
+	add("define_reuses_letbound_in_loop_body", "ok9 := false\n\tfor i := uint64(0); i < 2; i++ {\n\t\tif ok9 {\n\t\t\tx += 100\n\t\t}\n\t\tv9, ok9 := m[1]\n\t\tif ok9 {\n\t\t\tx += v9\n\t\t}\n\t}", false)
+	add("range_assign_value", "var v9 uint64 = 7\n\tfor _, v9 = range s {\n\t}\n\tx += v9", false)
+	add("range_assign_key", "var k9 int\n\tfor k9 = range s {\n\t}\n\tx += uint64(k9)", false)
+	add("range_assign_both", "var k9 int\n\tvar v9 uint64\n\tfor k9, v9 = range s {\n\t\tx += v9\n\t}\n\tx += uint64(k9) + v9", false)
+	add("range_assign_map", "var k9 uint64\n\tvar v9 uint64\n\tfor k9, v9 = range m {\n\t}\n\tx += k9 + v9", false)
+	add("commaok_assign_present", "var v9 uint64\n\tvar ok9 bool\n\tv9, ok9 = m[1]\n\tif ok9 {\n\t\tx += v9 + 1\n\t}", false)
+	add("commaok_assign_absent", "var v9 uint64 = 4\n\tvar ok9 bool = true\n\tv9, ok9 = m[77]\n\tif !ok9 {\n\t\tx += v9 + 100\n\t}", false)
+	add("commaok_assign_blank_value", "var ok9 bool\n\t_, ok9 = m[1]\n\tif ok9 {\n\t\tx += 1\n\t}", false)
+	add("commaok_assign_to_fields", "var ok9 bool\n\tp.f, ok9 = m[1]\n\tif ok9 {\n\t\tx += 1\n\t}", false)
+	add("typeassert_commaok_assign", "var iface interface{} = x\n\tvar v9 uint64\n\tvar ok9 bool\n\tv9, ok9 = iface.(uint64)\n\tif ok9 {\n\t\tx += v9\n\t}", false)
+	// --- strings and arrays as operands of the slice forms
+	add("string_take", "t9 := str[:2]\n\tx += uint64(len(t9))", false)
+	add("string_skip_take", "t9 := str[1:2]\n\tx += uint64(len(t9))", false)
+	add("string_skip", "t9 := str[1:]\n\tx += uint64(len(t9))", false)
+	add("string_take_param", "x += uint64(len(str[:x%3]))", false)
+	add("array_take", "var a1 [4]uint64\n\ta1[0] = x\n\tt9 := a1[:2]\n\tx += t9[0] + uint64(len(t9))", false)
+	add("array_pointer_take", "pa1 := new([4]uint64)\n\tpa1[0] = x\n\tt9 := pa1[:2]\n\tx += t9[0] + uint64(len(t9))", false)
+	add("named_slice_take", "nb := make(Bytes, 3)\n\tt9 := nb[:2]\n\tx += uint64(len(t9)) + uint64(cap(t9))", false)
 	// --- stores into struct VALUES that are not heap cells
 	add("fieldassign_define_bound", "c9 := H{f: x}\n\tc9.f = 1000\n\tx += c9.f", false)
 	add("fieldassign_define_bound_opassign", "c9 := H{f: x}\n\tc9.f += 5\n\tx += c9.f", false)
